@@ -597,7 +597,7 @@ func runProperty() int {
 	var results []hres
 	exit := 0
 	inconclusive := []string{}
-	var violLines, knownLines []string
+	var violLines, knownLines, partialLines []string
 	totalValidated := 0
 	totalDisagree := 0
 	crossChecked, crossDisagree := 0, 0
@@ -629,6 +629,7 @@ func runProperty() int {
 			MaxDepth:  optInt(h, *tier, "depth", 400),
 			AllocCap:  optInt(h, *tier, "alloc", 4096),
 			Preempt:   optInt(h, *tier, "preempt", -1),
+			TimeBoxS:  optInt(h, *tier, "timebox", map[string]int{"quick": 0, "thorough": 480}[*tier]),
 			Workers:   *workers,
 			Thorough:  *tier == "thorough",
 			KeepLog:   true,
@@ -680,7 +681,13 @@ func runProperty() int {
 			fmt.Printf("  %s: paths=%d completed=%d infeasible=%d obligations=%d discharged=%d unknown=%d viol=%d aborts=%d wall=%.1fs\n",
 				h.Name, res.Paths, res.Completed, res.Infeasible, res.Obligations, res.Discharged, res.Unknown, len(res.Violations), len(res.Aborts), res.WallS)
 		}
-		if !res.Conclusive() {
+		partial := res.TimeBoxHit && len(res.Aborts) == 0 && res.Unknown == 0 && res.UnknownFeas == 0 && len(res.SolverErrs) == 0
+		if partial {
+			// thorough tier only: the larger bound was explored for the time box and not exhausted. Everything
+			// explored held (violations are reported as usual); the evidence says the coverage is partial.
+			partialLines = append(partialLines, fmt.Sprintf("PARTIAL %s: time box of %d s reached after %d paths (%d decision prefixes pending): the %s bound was explored partially; what is exhaustive is the quick tier's bound", h.Name, cfg.TimeBoxS, res.Paths, res.Pending, *tier))
+		}
+		if !res.Conclusive() && !partial {
 			var why []string
 			for k, c := range res.Aborts {
 				why = append(why, fmt.Sprintf("%s ×%d", clip(k, 400), c))
@@ -902,6 +909,9 @@ func runProperty() int {
 			bounds = append(bounds, r.decl.Name+": "+b)
 		}
 		bounds = append(bounds, fmt.Sprintf("%s: unwind<=%d steps<=%d paths<=%d depth<=%d alloc<=%d query-timeout=%dms", r.decl.Name, r.cfg.Unwind, r.cfg.MaxSteps, r.cfg.MaxPaths, r.cfg.MaxDepth, r.cfg.AllocCap, r.cfg.TimeoutMs))
+		if r.res.TimeBoxHit {
+			bounds = append(bounds, fmt.Sprintf("%s: PARTIAL - exploration stopped by the %d s time box after %d paths with %d decision prefixes pending; the stated bound was NOT exhausted in this run (the quick tier exhausts its smaller bound)", r.decl.Name, r.cfg.TimeBoxS, r.res.Paths, r.res.Pending))
+		}
 		if r.cfg.Preempt >= 0 {
 			bounds = append(bounds, fmt.Sprintf("%s: schedules with at most %d preemptions (switches away from a thread that could continue); switches at blocking points are unlimited", r.decl.Name, r.cfg.Preempt))
 		}
@@ -949,7 +959,8 @@ func runProperty() int {
 		"coverage": map[string]interface{}{
 			"states": states, "transitions": transitions, "traces_validated_against_impl": totalValidated,
 			"samples": samples, "obligations": obligations, "discharged": discharged, "unknown": unknown,
-			"exhaustive": len(inconclusive) == 0,
+			"exhaustive": len(inconclusive) == 0 && len(partialLines) == 0,
+			"partial_explorations": partialLines,
 			"explanation": "states = feasible symbolic paths explored to completion or pruned by an assumption; transitions = SSA instructions executed symbolically; every obligation is one solver query pc ∧ ¬assertion (or a feasible uncaught panic)",
 			"functions_encoded": funcs, "stdlib_functions_executed": otherFuncs, "stubs_and_intrinsics": stubs,
 			"bounds": bounds, "outside_bounds": outside, "harnesses": perHarness,
@@ -967,6 +978,9 @@ func runProperty() int {
 	b, _ := json.MarshalIndent(ev, "", " ")
 	os.WriteFile(filepath.Join(evidenceDir(), *prop+".json"), b, 0o644)
 
+	for _, l := range partialLines {
+		fmt.Println(l)
+	}
 	for _, l := range knownLines {
 		fmt.Println(l)
 	}
